@@ -549,6 +549,19 @@ theorem St.covers {a b : List Route} {T : RTable} {am P : List Spec.RKey} (h : S
   · exact ⟨k, (h.mem k).mpr (Or.inr hk), hd.trans hda⟩
   · exact ⟨kb, (h.mem kb).mpr (Or.inr (h1 kb hkb)), hdb⟩
 
+/-- The same for addresses, for ANY notion of "destination `d` covers address `x`": an address covered
+by a route of the device and by a route of the target is covered in every state. -/
+theorem St.coversAddr {α : Type} {a b : List Route} {T : RTable} {am P : List Spec.RKey} (h : St a b T am P)
+    (cov : Str × Int → α → Bool) (x : α)
+    (ha : ∃ ka, ka ∈ keys a ∧ cov (dstOf ka) x = true) (hb : ∃ kb, kb ∈ keys b ∧ cov (dstOf kb) x = true) :
+    ∃ k, k ∈ T ∧ cov (dstOf k) x = true := by
+  obtain ⟨ka, hka, hca⟩ := ha
+  obtain ⟨kb, hkb, hcb⟩ := hb
+  rcases h.cov ka hka with h1 | ⟨k, hk, hd⟩ | h1
+  · exact ⟨ka, (h.mem ka).mpr (Or.inl h1), hca⟩
+  · exact ⟨k, (h.mem k).mpr (Or.inr hk), by rw [hd]; exact hca⟩
+  · exact ⟨kb, (h.mem kb).mpr (Or.inr (h1 kb hkb)), hcb⟩
+
 /-- A line that succeeds on the strict table and leaves one hop per destination also succeeds on
 the kernel that refuses a second route to a destination. -/
 theorem lineK_of_line (T T' : RTable) (l : RLine) (h : execLine T (cmdsOf l) = some T')
